@@ -31,7 +31,7 @@ def run(ctx):
     exe = L.build_harness(ctx, HDIR)
     if not exe:
         return
-    n = 300 if ctx.tier == "quick" else 5000
+    n = 600 if ctx.tier == "quick" else 5000
     seeds = [ctx.seed] if ctx.tier == "quick" else [str(int(ctx.seed) * 1000 + k) for k in range(3)]
     allcases = []
     ambiguous = 0
